@@ -17,6 +17,7 @@ import (
 	"runtime"
 	"strconv"
 	"sync"
+	"sync/atomic"
 
 	"github.com/coredhcp/coredhcp/handler"
 	"github.com/insomniacslk/dhcp/dhcpv4"
@@ -113,7 +114,13 @@ func (l *listener6) WriteTo(b []byte, cm *ipv6.ControlMessage, dst net.Addr) (in
 func verifCaptureFrame(iface net.Interface, resp *dhcpv4.DHCPv4, frame []byte) bool {
 	s, ok := verifFrameSinks.Load(verifGoID())
 	if !ok {
-		return false
+		// handler goroutines started by a Serving4 listener are not registered
+		// individually: their frames go to that listener's sink
+		fb := verifFrameFallback.Load()
+		if fb == nil {
+			return false
+		}
+		s = fb
 	}
 	s.(*verifSink).add(Sent{
 		L2:        true,
@@ -122,6 +129,87 @@ func verifCaptureFrame(iface net.Interface, resp *dhcpv4.DHCPv4, frame []byte) b
 		L2IfName:  iface.Name,
 	})
 	return true
+}
+
+var verifFrameFallback atomic.Pointer[verifSink]
+
+// Serving4 is a DHCPv4 listener on a loopback UDP socket running the real Serve
+// loop (ReadFrom into a pooled buffer, one goroutine per datagram); what the
+// handlers try to send is recorded instead of written
+type Serving4 struct {
+	l    *listener4
+	sink *verifSink
+	// Addr is where datagrams must be sent
+	Addr *net.UDPAddr
+}
+
+// NewServing4 starts Serve on 127.0.0.1 (ephemeral port), unbound
+func NewServing4(handlers []handler.Handler4) (*Serving4, error) {
+	conn, err := net.ListenUDP("udp4", &net.UDPAddr{IP: net.IPv4(127, 0, 0, 1)})
+	if err != nil {
+		return nil, err
+	}
+	l := &listener4{PacketConn: ipv4.NewPacketConn(conn), handlers: handlers}
+	if err := l.SetControlMessage(ipv4.FlagInterface, true); err != nil {
+		conn.Close()
+		return nil, err
+	}
+	s := &Serving4{l: l, sink: &verifSink{}, Addr: conn.LocalAddr().(*net.UDPAddr)}
+	verifSinks4.Store(l, s.sink)
+	verifFrameFallback.Store(s.sink)
+	go l.Serve() //nolint:errcheck
+	return s, nil
+}
+
+// Sent returns a copy of what was recorded so far
+func (s *Serving4) Sent() []Sent {
+	s.sink.mu.Lock()
+	defer s.sink.mu.Unlock()
+	return append([]Sent(nil), s.sink.sent...)
+}
+
+// Close stops the listener
+func (s *Serving4) Close() {
+	s.l.Close()
+	verifSinks4.Delete(s.l)
+	verifFrameFallback.CompareAndSwap(s.sink, nil)
+}
+
+// Serving6 is the DHCPv6 counterpart of Serving4, on [::1]
+type Serving6 struct {
+	l    *listener6
+	sink *verifSink
+	Addr *net.UDPAddr
+}
+
+// NewServing6 starts Serve on [::1] (ephemeral port), unbound
+func NewServing6(handlers []handler.Handler6) (*Serving6, error) {
+	conn, err := net.ListenUDP("udp6", &net.UDPAddr{IP: net.IPv6loopback})
+	if err != nil {
+		return nil, err
+	}
+	l := &listener6{PacketConn: ipv6.NewPacketConn(conn), handlers: handlers}
+	if err := l.SetControlMessage(ipv6.FlagInterface, true); err != nil {
+		conn.Close()
+		return nil, err
+	}
+	s := &Serving6{l: l, sink: &verifSink{}, Addr: conn.LocalAddr().(*net.UDPAddr)}
+	verifSinks6.Store(l, s.sink)
+	go l.Serve() //nolint:errcheck
+	return s, nil
+}
+
+// Sent returns a copy of what was recorded so far
+func (s *Serving6) Sent() []Sent {
+	s.sink.mu.Lock()
+	defer s.sink.mu.Unlock()
+	return append([]Sent(nil), s.sink.sent...)
+}
+
+// Close stops the listener
+func (s *Serving6) Close() {
+	s.l.Close()
+	verifSinks6.Delete(s.l)
 }
 
 // Capture4 is a DHCPv4 listener without a socket
